@@ -2,15 +2,20 @@
 EXTENDS Integers, Sequences, FiniteSets, TLC, TLCExt, Json, CSV, IOUtils, SequencesExt
 CONSTANTS Emit
 E == INSTANCE Env
-VARIABLES kind, pat, fid, cols, lhs, cform, cap
-vars == <<kind, pat, fid, cols, lhs, cform, cap>>
+VARIABLES kind, pat, fid, cols, lhs, cform, cap, rhs
+vars == <<kind, pat, fid, cols, lhs, cform, cap, rhs>>
 Form == E!Formulas[fid]
 Laws == kind = "resolve" => E!Sufficient(pat, Form) /\ E!Necessary(pat, Form)
 DotLaw == kind = "dot" => LET d == E!DotExpand(cols, lhs) IN
             /\ \A i \in DOMAIN d : d[i] \notin lhs
             /\ \A c \in {cols[i] : i \in DOMAIN cols} \ lhs : \E i \in DOMAIN d : d[i] = c
             /\ \A i, j \in DOMAIN d : i < j => (CHOOSE a \in DOMAIN cols : cols[a] = d[i]) < (CHOOSE b \in DOMAIN cols : cols[b] = d[j])
-Order3 == <<"x", "z", "I", "q">>
+            \* however the right-hand side spells its intercept, and whether or not the parser adds one: the terms are the same
+            \* expansion, preceded by at most the intercept
+            /\ \A auto \in BOOLEAN : LET t == E!DotTerms(cols, lhs, E!DotRhs[rhs], auto) IN
+                  t = d \/ t = <<"1">> \o d
+            /\ E!DotTerms(cols, lhs, E!DotRhs[rhs], TRUE) = <<"1">> \o d <=> E!DotRhsText[rhs] \in {".", "+.", "1 + ."}
+Order3 == <<"x", "z", "I", "q", "r">>
 Out == IOEnv.OUT_FILE
 EmitCase == Emit =>
   IF kind = "capture"
@@ -23,7 +28,8 @@ EmitCase == Emit =>
           cform |-> cform,
           sources |-> IF E!Succeeds(pat, Form) THEN [n \in DOMAIN E!Sources(pat, Form) |-> E!SourceName(E!Sources(pat, Form)[n], cform)] ELSE [n \in {} |-> ""],
           required_after |-> IF E!Succeeds(pat, Form) THEN SetToSeq(E!RequiredAfter(pat, Form)) ELSE <<>>])>>, Out)
-  ELSE CSVWrite("%1$s", <<ToJson([kind |-> kind, cols |-> cols, lhs |-> SetToSeq(lhs), dot |-> E!DotExpand(cols, lhs)])>>, Out)
+  ELSE CSVWrite("%1$s", <<ToJson([kind |-> kind, cols |-> cols, lhs |-> SetToSeq(lhs), dot |-> E!DotExpand(cols, lhs), rhs |-> E!DotRhsText[rhs],
+          terms |-> E!DotTerms(cols, lhs, E!DotRhs[rhs], TRUE), terms_noauto |-> E!DotTerms(cols, lhs, E!DotRhs[rhs], FALSE)])>>, Out)
 \* "c 3" needs quoting in a formula
 Perms4 == {p \in [1..4 -> {"c1", "c2", "c 3", "y"}] : \A i, j \in 1..4 : i # j => p[i] # p[j]}
 NoCap == [stack |-> <<>>, k |-> 0, g |-> FALSE, d |-> FALSE]
@@ -32,10 +38,13 @@ CaptureLaw == kind = "capture" =>
    /\ (cap.d => E!CaptureLayer(cap.stack, cap.k, cap.g, cap.d) = "data")
    /\ \A s2 \in [1..3 -> BOOLEAN] : s2[cap.k + 1] = cap.stack[cap.k + 1] => E!CaptureValue(s2, cap.k, cap.g, cap.d) = E!CaptureValue(cap.stack, cap.k, cap.g, cap.d)
 Init == \/ /\ kind = "capture" /\ pat = [data |-> {}, context |-> {}] /\ fid = 1 /\ cols = <<>> /\ lhs = {} /\ cform = "dict"
-           /\ cap \in [stack : [1..3 -> BOOLEAN], k : 0..2, g : BOOLEAN, d : BOOLEAN]
-        \/ /\ kind = "resolve" /\ pat \in [data : SUBSET E!Names, context : SUBSET E!Names] /\ fid \in DOMAIN E!Formulas /\ cols = <<>> /\ lhs = {}
+           /\ cap \in [stack : [1..3 -> BOOLEAN], k : 0..2, g : BOOLEAN, d : BOOLEAN] /\ rhs = 1
+        \/ /\ kind = "resolve" /\ fid \in DOMAIN E!Formulas /\ cols = <<>> /\ lhs = {} /\ rhs = 1
+              \* (the formulas with two quoted names of one placeholder: every presence pattern of these two names)
+              /\ pat \in (IF E!ReadsR(E!Formulas[fid]) THEN [data : SUBSET E!CollidingNames, context : SUBSET E!CollidingNames] ELSE [data : SUBSET E!Names, context : SUBSET E!Names])
               /\ cform \in (IF pat.context = {} THEN {"dict"} ELSE {"dict", "lm", "lm-named"}) /\ cap = NoCap
         \/ /\ kind = "dot" /\ pat = [data |-> {}, context |-> {}] /\ fid = 1 /\ cols \in Perms4 /\ lhs \in {{"y"}, {"y", "c2"}, {}, {"c 3"}, {"y", "c 3"}} /\ cform = "dict" /\ cap = NoCap
+           /\ rhs \in DOMAIN E!DotRhs
 Next == UNCHANGED vars
 Spec == Init /\ [][Next]_vars
 =============================================================================
